@@ -328,10 +328,12 @@ def run(ctx):
     ctx.assumptions += ["weights are positive integers", "TLC/SANY, CPython", "headers are hashable values; parent 0 is the anchor"]
     only = getattr(ctx, "only", None) or {"model", "replay", "trace"}
     # 1. model checking
-    cfgs = ["MC_ChainFinder_q", "MC_ChainFinder_lock"] if q else ["MC_ChainFinder_t", "MC_ChainFinder_lock_t", "MC_ChainFinder_q"]
+    cfgs = ["MC_ChainFinder_q", "MC_ChainFinder_lock"] if q else ["MC_ChainFinder_t", "MC_ChainFinder_lock_t", "MC_ChainFinder_q", "MC_ChainFinder_lock"]
     for cfg in (cfgs if "model" in only else []):
-        ctx.tlc("ChainFinder", cfg, coverage=not q, timeout=3000,
-                require_actions=() if q else ("Pop", "AddBegin", "AddFinish") + (("LockBegin", "LockFinish") if "lock" in cfg else ()))
+        # -coverage doubles TLC's run time: only on the small configurations (vacuity guard), never on N = 5
+        cov = (not q) and cfg in ("MC_ChainFinder_q", "MC_ChainFinder_lock")
+        ctx.tlc("ChainFinder", cfg, coverage=cov, timeout=5000,
+                require_actions=() if not cov else ("Pop", "AddBegin", "AddFinish") + (("LockBegin", "LockFinish") if "lock" in cfg else ()))
     # teeth of the model itself: the pre-fix meld loop must violate the canonical form
     r = ctx.tlc("ChainFinder", "MC_ChainFinder_legacy", expect_ok=False, count=False)
     ctx.selftest("model_rejects_legacy_meld", (not r.ok) and r.violated in ("Canonical", "ChainOk"))
